@@ -80,12 +80,29 @@ pub fn collect(tier: &str, caps: &Caps, rep: &Report) -> Vec<BItem> {
         items.lock().unwrap().push(BItem { space: "raise-parent".into(), choices: vec![i as u32], tags, inputs, module, nontrivial: true });
     }
     rep.add_stats("raise-parent", "full (8 fixed layouts)", &crate::explore::ExploreStats { leaves: 8, transitions: 8, ..Default::default() });
+    // flattening across struct kinds (one and two nesting levels, C03's layouts): Into and IntoExisting are both held
+    // against the one expected value of the layout
+    let mk: Vec<_> = super::c03::mixed_kind_modules().into_iter().map(|x| ("mixed-kind", x)).chain(super::c03::mixed_kind2_modules().into_iter().map(|x| ("mixed-kind-2", x))).collect();
+    let mut cnt = [0u64; 2];
+    let mut idx = 0u32;
+    let mut last = "";
+    for (sp, (module, inputs, tags)) in mk {
+        if sp != last {
+            idx = 0;
+            last = sp;
+        }
+        cnt[(sp == "mixed-kind-2") as usize] += 1;
+        items.lock().unwrap().push(BItem { space: sp.into(), choices: vec![idx], tags, inputs, module, nontrivial: true });
+        idx += 1;
+    }
+    rep.add_stats("mixed-kind", "full (fixed layouts)", &crate::explore::ExploreStats { leaves: cnt[0], transitions: cnt[0], ..Default::default() });
+    rep.add_stats("mixed-kind-2", "full (8 kind triples x 2 deriving kinds x 6 member orders)", &crate::explore::ExploreStats { leaves: cnt[1], transitions: cnt[1], ..Default::default() });
     items.into_inner().unwrap()
 }
 
 pub fn run(tier: &str) -> i32 {
     let rep = Report::new("C07", tier, "model_checking");
-    rep.set_rule("the struct, enum and flattening case spaces of C01/C02/C03 (member menu without the owned-only / ref-only ghost forms) with ALL flavours requested, compiled through the real derive and executed with a purely differential oracle (no expected constants): From<&T> == From<T>; by-ref Into == owned Into; TryFrom/TryInto == Ok(infallible result) against the layout-identical twin type; into_existing makes every mapped leaf equal to what into produced and leaves every unmapped leaf at its pre-value; plus a `?`-raising space: 1-3 members, every subset of them carrying a fallible expression, every subset of trigger values: the fallible flavours return Err of the FIRST raising member (declaration order), else Ok of the computed value. states = distinct test modules");
+    rep.set_rule("the struct, enum and flattening case spaces of C01/C02/C03 (member menu without the owned-only / ref-only ghost forms) with ALL flavours requested, compiled through the real derive and executed with a purely differential oracle (no expected constants): From<&T> == From<T>; by-ref Into == owned Into; TryFrom/TryInto == Ok(infallible result) against the layout-identical twin type; into_existing makes every mapped leaf equal to what into produced and leaves every unmapped leaf at its pre-value; plus a `?`-raising space: 1-3 members, every subset of them carrying a fallible expression, every subset of trigger values: the fallible flavours return Err of the FIRST raising member (declaration order), else Ok of the computed value; plus C03's mixed-kind layouts (named / tuple structs alternating over one and two nesting levels, every member order), where Into and IntoExisting are held against one expected value. states = distinct test modules");
     rep.assume("values are compared through their Debug text with the twin type names normalised; leaves are i32/i64");
     let caps = Caps::from_env(if tier == "quick" { 250.0 } else { 1500.0 });
     let items = collect(tier, &caps, &rep);
@@ -121,6 +138,10 @@ pub fn replay(f: &Failure) -> i32 {
                             item = Some(BItem { space: "enum".into(), choices: full, tags: c.tags.clone(), inputs: vec![f.input.clone()], module: enum_module(&c), nontrivial: true });
                         }
                     }
+                }
+                "mixed-kind" | "mixed-kind-2" => {
+                    let v = if f.space == "mixed-kind" { super::c03::mixed_kind_modules() } else { super::c03::mixed_kind2_modules() };
+                    item = v.into_iter().enumerate().find(|(i, _)| vec![*i as u32] == f.choices).map(|(_, (module, inputs, tags))| BItem { space: f.space.clone(), choices: f.choices.clone(), tags, inputs, module, nontrivial: true });
                 }
                 "raise-parent" => {
                     item = crate::sem_diff::raise_parent_modules().into_iter().enumerate().find(|(i, _)| vec![*i as u32] == f.choices).map(|(_, (module, inputs, tags))| BItem { space: f.space.clone(), choices: f.choices.clone(), tags, inputs, module, nontrivial: true });
